@@ -462,3 +462,196 @@ Definition mismatches (cs : list (eth_tx * obs)) : list nat := mismatches_from 0
 (** shorthand used by the generated case files *)
 Definition hx (s : string) : bytes := unhex_or_nil s.
 Definition hxs (l : list string) : bytes := concat (map unhex_or_nil l).
+
+(** * unwrapping by hash: [UnwrapEthereumMsg] (x/evm/types/utils.go)
+
+    A decoded Cosmos transaction carries a list of [MsgEthereumTx].  Each has
+    the TxData ([Data]), the recorded hash ([Hash], hex text) and the deprecated
+    [From] text.  Nothing on the decoding path validates [Hash] or [From]
+    ([ValidateBasic] is not part of TxDecoder), so both are arbitrary text here. *)
+Record emsg := mk_emsg {
+  m_data : tx_data;     (* Data, unpacked *)
+  m_hash : string;      (* Hash: what the sender of the envelope recorded *)
+  m_from : string }.    (* From *)
+
+(** [MsgEthereumTx.AsTransaction].  [None] = a To / access-list text that is not
+    "0x" + hex digits of the right length: [FromEthereumTx] never writes such text
+    ([roundtrip_fields]); the scan below passes over such a member. *)
+Definition as_tx (m : emsg) : option eth_tx := of_txdata (m_data m).
+
+Section Unwrap.
+  (** Keccak-256 enters as an arbitrary function *)
+  Variable hash : bytes -> bytes.
+
+  (** [FromEthereumTx]: [Data := NewTxDataFromTx(tx)], [Hash := tx.Hash().Hex()];
+      [From] stays empty ([BuildTx] clears it) *)
+  Definition from_eth_tx (csum : bytes -> nat -> bool) (tx : eth_tx) : option emsg :=
+    match to_txdata csum tx with
+    | Wrapped d => Some (mk_emsg d (hash_hex (tx_hash hash tx)) EmptyString)
+    | _ => None
+    end.
+
+  (** [ethMsg.Hash = txHash.Hex()] *)
+  Definition refresh (m : emsg) (h : bytes) : emsg := mk_emsg (m_data m) (hash_hex h) (m_from m).
+
+  (** [UnwrapEthereumMsg(tx, ethHash)]: scan the messages in order, recompute the
+      Ethereum hash of each one, overwrite its recorded hash with it, return the
+      first message whose recomputed hash is the requested one; none = the error
+      "eth tx not found". *)
+  Fixpoint unwrap (msgs : list emsg) (h : bytes) : option emsg :=
+    match msgs with
+    | [] => None
+    | m :: r =>
+        match as_tx m with
+        | Some tx => if bytes_eq_dec (tx_hash hash tx) h then Some (refresh m (tx_hash hash tx)) else unwrap r h
+        | None => unwrap r h
+        end
+    end.
+
+  (** the same scan, instrumented for the comparison with the implementation:
+      position of the message returned and the envelope as the call leaves it (the
+      recorded hash of every visited message has been overwritten) *)
+  Fixpoint unwrap_scan (i : nat) (msgs : list emsg) (h : bytes) : list emsg * option (nat * emsg) :=
+    match msgs with
+    | [] => ([], None)
+    | m :: r =>
+        match as_tx m with
+        | Some tx =>
+            let m' := refresh m (tx_hash hash tx) in
+            if bytes_eq_dec (tx_hash hash tx) h then (m' :: r, Some (i, m'))
+            else let '(r', res) := unwrap_scan (S i) r h in (m' :: r', res)
+        | None => let '(r', res) := unwrap_scan (S i) r h in (m :: r', res)
+        end
+    end.
+
+  (** NOT the code of /repo: the scan with a fast path for envelopes of exactly one
+      message (returned at once: no hash recomputed, none compared, recorded hash
+      not refreshed).  Kept to state what such a shortcut breaks
+      ([unwrap_fast_refuted]). *)
+  Definition unwrap_fast (msgs : list emsg) (h : bytes) : option emsg :=
+    match msgs with
+    | [m] => Some m
+    | _ => unwrap msgs h
+    end.
+End Unwrap.
+
+(** ** comparison with the implementation: lookups by hash over envelopes *)
+Record request := mk_rq {
+  rq_hash : bytes;                        (* the requested hash *)
+  rq_found : option nat;                  (* position of the message UnwrapEthereumMsg returned; None = error *)
+  rq_after : list string }.               (* Hash of every member after the call *)
+
+Record cosmos_env := mk_ev {
+  ev_members : list nat;                  (* members of the envelope: positions in the pool *)
+  ev_forge_hash : list (nat * string);    (* (position in the envelope, text put into Hash before encoding) *)
+  ev_forge_from : list (nat * string);    (* (position in the envelope, text put into From before encoding) *)
+  ev_from_after : list string;            (* From of every member after every call *)
+  ev_requests : list request }.           (* each on a freshly decoded copy of the envelope *)
+
+Record unwrap_case := mk_uc {
+  uc_pool : list eth_tx;                  (* the signed transactions that are members of some envelope *)
+  uc_hashes : list bytes;                 (* tx.Hash() of each, as go-ethereum computed it *)
+  uc_envs : list cosmos_env }.
+
+(** the hash function given by a finite graph; a preimage the implementation did
+    not hash gets the empty hash (and the comparison fails) *)
+Definition table_hash (tbl : list (bytes * bytes)) (pre : bytes) : bytes :=
+  match find (fun e => eqb bytes_eq_dec (fst e) pre) tbl with Some e => snd e | None => [] end.
+
+(** Keccak restricted to the pool: the graph pairing the hash preimage of every
+    pool transaction (that these are the bytes go-ethereum hashes is what the
+    [cases] list checks, byte for byte, for every transaction) with the hash
+    go-ethereum computed *)
+Definition uc_table (c : unwrap_case) : list (bytes * bytes) := combine (map hash_preimage (uc_pool c)) (uc_hashes c).
+
+Fixpoint update_nth {A} (f : A -> A) (n : nat) (l : list A) : list A :=
+  match l, n with
+  | [], _ => []
+  | x :: r, O => f x :: r
+  | x :: r, S k => x :: update_nth f k r
+  end.
+
+Definition forge_hashes (fs : list (nat * string)) (msgs : list emsg) : list emsg :=
+  fold_left (fun ms f => update_nth (fun m => mk_emsg (m_data m) (snd f) (m_from m)) (fst f) ms) fs msgs.
+Definition forge_froms (fs : list (nat * string)) (msgs : list emsg) : list emsg :=
+  fold_left (fun ms f => update_nth (fun m => mk_emsg (m_data m) (m_hash m) (snd f)) (fst f) ms) fs msgs.
+
+Fixpoint all_some {A} (l : list (option A)) : option (list A) :=
+  match l with
+  | [] => Some []
+  | Some x :: r => match all_some r with Some t => Some (x :: t) | None => None end
+  | None :: _ => None
+  end.
+
+Definition onat_eq_dec : forall a b : option nat, {a = b} + {a <> b}.
+Proof. decide equality. apply PeanoNat.Nat.eq_dec. Defined.
+Definition strings_eq_dec : forall a b : list string, {a = b} + {a <> b} := list_eq_dec string_dec.
+
+(** what one call must have left behind, given the result of the model's scan *)
+Definition request_ok (ev : cosmos_env) (rq : request) (r : list emsg * option (nat * emsg)) : bool :=
+  eqb onat_eq_dec (option_map fst (snd r)) (rq_found rq) &&
+  eqb strings_eq_dec (map m_hash (fst r)) (rq_after rq) &&
+  eqb strings_eq_dec (map m_from (fst r)) (ev_from_after ev).
+
+Definition check_envelope (hash : bytes -> bytes) (wrapped_pool : list (option emsg)) (ev : cosmos_env) : bool :=
+  match all_some (map (fun i => nth i wrapped_pool None) (ev_members ev)) with
+  | None => false
+  | Some msgs0 =>
+      let msgs := forge_froms (ev_forge_from ev) (forge_hashes (ev_forge_hash ev) msgs0) in
+      forallb (fun rq => request_ok ev rq (unwrap_scan hash 0 msgs (rq_hash rq))) (ev_requests ev)
+  end.
+
+Definition check_unwrap_case (c : unwrap_case) : bool :=
+  let hash := table_hash (uc_table c) in
+  let wrapped_pool := map (from_eth_tx hash no_csum) (uc_pool c) in
+  forallb (check_envelope hash wrapped_pool) (uc_envs c).
+
+(** The same check, evaluated faster: the Ethereum hash of a pool member is
+    computed once per case instead of once per visit, and carried along with the
+    message (forging [Hash] / [From] does not touch the TxData it is computed
+    from).  [check_unwrap_case_memo_eq] (UnwrapProofs.v) proves the two checks
+    equal on every input; the correspondence run evaluates this one. *)
+Definition eth_hash (hash : bytes -> bytes) (m : emsg) : option bytes := option_map (tx_hash hash) (as_tx m).
+Definition annot (hash : bytes -> bytes) (m : emsg) : emsg * option bytes := (m, eth_hash hash m).
+
+Fixpoint scan_memo (i : nat) (msgs : list (emsg * option bytes)) (h : bytes) : list emsg * option (nat * emsg) :=
+  match msgs with
+  | [] => ([], None)
+  | (m, Some x) :: r =>
+      let m' := refresh m x in
+      if bytes_eq_dec x h then (m' :: map fst r, Some (i, m'))
+      else let '(r', res) := scan_memo (S i) r h in (m' :: r', res)
+  | (m, None) :: r => let '(r', res) := scan_memo (S i) r h in (m :: r', res)
+  end.
+
+Definition forge_hashes_memo (fs : list (nat * string)) (msgs : list (emsg * option bytes)) :=
+  fold_left (fun ms f => update_nth (fun p => (mk_emsg (m_data (fst p)) (snd f) (m_from (fst p)), snd p)) (fst f) ms) fs msgs.
+Definition forge_froms_memo (fs : list (nat * string)) (msgs : list (emsg * option bytes)) :=
+  fold_left (fun ms f => update_nth (fun p => (mk_emsg (m_data (fst p)) (m_hash (fst p)) (snd f), snd p)) (fst f) ms) fs msgs.
+
+Definition check_envelope_memo (pool : list (option (emsg * option bytes))) (ev : cosmos_env) : bool :=
+  match all_some (map (fun i => nth i pool None) (ev_members ev)) with
+  | None => false
+  | Some msgs0 =>
+      let msgs := forge_froms_memo (ev_forge_from ev) (forge_hashes_memo (ev_forge_hash ev) msgs0) in
+      forallb (fun rq => request_ok ev rq (scan_memo 0 msgs (rq_hash rq))) (ev_requests ev)
+  end.
+
+Definition check_unwrap_case_memo (c : unwrap_case) : bool :=
+  let hash := table_hash (uc_table c) in
+  let pool := map (fun tx => option_map (annot hash) (from_eth_tx hash no_csum tx)) (uc_pool c) in
+  forallb (check_envelope_memo pool) (uc_envs c).
+
+Fixpoint mismatches_unwrap_from (i : nat) (cs : list unwrap_case) : list nat :=
+  match cs with
+  | [] => []
+  | c :: r => if check_unwrap_case_memo c then mismatches_unwrap_from (S i) r else i :: mismatches_unwrap_from (S i) r
+  end.
+Definition mismatches_unwrap (cs : list unwrap_case) : list nat := mismatches_unwrap_from 0 cs.
+
+(** shorthands of the generated case files.  [flip h k]: the hash [h] with bit
+    [k] flipped (bit [k mod 8] of byte [k / 8]); [rq]: a request that left the
+    recorded hashes [after] *)
+Definition zero_hash : bytes := repeat 0%N 32.
+Definition flip (h : bytes) (k : nat) : bytes :=
+  update_nth (fun b => N.lxor b (N.shiftl 1 (N.of_nat (Nat.modulo k 8)))) (Nat.div k 8) h.
